@@ -1,0 +1,37 @@
+//go:build verif
+
+package tree
+
+import (
+	"github.com/benoitkugler/webrender/css/counters"
+	pa "github.com/benoitkugler/webrender/css/parser"
+	pr "github.com/benoitkugler/webrender/css/properties"
+	"github.com/benoitkugler/webrender/utils"
+)
+
+// Exported wrappers of unexported parsing entry points, used by the C07 verification harness
+// (/verif/harness/c07). Compiled only with the build tag `verif`.
+
+// VerifC07NewCSS is NewCSSDefault with an URL fetcher (for @import) and a caller-owned counter
+// style table, so that the @counter-style rules accepted by the sheet can be exercised.
+func VerifC07NewCSS(input utils.ContentInput, urlFetcher utils.UrlFetcher, counterStyle counters.CounterStyle) (CSS, error) {
+	return newCSS(input, "", urlFetcher, false, "", nil, nil, nil, counterStyle)
+}
+
+// VerifC07ParsePageSelectors runs the @page prelude parser; it returns the number of page
+// selectors, -1 when the prelude is rejected.
+func VerifC07ParsePageSelectors(rule pa.QualifiedRule) int {
+	out := parsePageSelectors(rule)
+	if out == nil {
+		return -1
+	}
+	return len(out)
+}
+
+// VerifC07ParseMediaQuery runs the media query list parser (nil = rejected).
+func VerifC07ParseMediaQuery(tokens []pa.Token) []string { return parseMediaQuery(tokens) }
+
+// VerifC07ResolveVar runs the var() substitution of one token (nil = no var() inside).
+func VerifC07ResolveVar(computed map[string]pr.RawTokens, token pa.Token) []pa.Token {
+	return resolveVar(computed, token)
+}
